@@ -10,7 +10,7 @@ def knobs(r, i):
 
 
 def run(v, tier, seed, replay):
-    cases, impl, model = seqcheck.run(v, tier, seed, replay, "C04", ["C04"], tree_oracles=["no_panic", "exactly_once", "tree", "attachments", "retained"], knobs=knobs, known=K.known("C04", "D21"),
+    cases, impl, model = seqcheck.run(v, tier, seed, replay, "C04", ["C04", "Fifo"], tree_oracles=["no_panic", "exactly_once", "tree", "attachments", "retained"], knobs=knobs, known=K.known("C04", "D21"),
                  extra_cases=lambda r: [K.case("C04", "D21", ["no_panic", "exactly_once"])],
                  n_quick=(1800, 300), n_thorough=(60000, 5000),
                  assumptions=["queue-full episodes around cancel/finish are exercised in the C09 tier (forced commands FIFO, D2 fix)",
